@@ -138,6 +138,7 @@ class Interp:
         self.hooks = hooks or {}
         self.opaque = set(self.hooks.get("opaque", ()))   # quals treated as opaque calls
         self.unknown_calls = []
+        self.facts = []           # (p, q): p implies q (raise inside a try body => that try's exception flag)
         self.writelog = None
         self.warnings = []
 
@@ -328,8 +329,12 @@ class Interp:
             return Const(fr.modname)
         if name == "__file__":
             return Op("modfile", Const(fr.modname))
-        if name in BUILTIN_NAMES:
+        if name in BUILTIN_NAMES or name in _PY_BUILTINS:
             return Ext("builtins." + name)
+        if fr.finfo is not None and not name.startswith("<"):
+            # unbound name: NameError at run time
+            self.event("raise", (Op("NameError", Const(name)),), node)
+            self.note_raise(self.local_guard(state=False))
         return Undef(name)
 
     def store_name(self, name, val):
@@ -488,6 +493,9 @@ BUILTIN_NAMES = {
     "OverflowError", "ZeroDivisionError", "LookupError", "ArithmeticError", "__name__", "__file__",
     "property", "staticmethod", "classmethod", "slice", "bin", "oct", "ascii", "compile",
 }
+
+import builtins as _b
+_PY_BUILTINS = set(dir(_b))
 
 BINOPS = {ast.Add: "add", ast.Sub: "sub", ast.Mult: "mul", ast.FloorDiv: "floordiv", ast.Mod: "mod",
           ast.LShift: "lshift", ast.RShift: "rshift", ast.BitAnd: "bitand", ast.BitOr: "bitor",
@@ -1354,6 +1362,10 @@ class _StmtMixin:
         tr = getattr(fr, "try_stack", None)
         if tr:
             tr[-1].append(g)       # caught (approximately) by the enclosing try
+            excs = getattr(fr, "try_excs", None)
+            if excs:
+                full = and_(*(self.cur_guard_list()[:fr.base_guard_len] + [g]))
+                self.facts.append((full, excs[-1]))
         else:
             if not hasattr(fr, "raised"):
                 fr.raised = []
@@ -1381,13 +1393,15 @@ class _StmtMixin:
             self.guard.pop()
 
     def st_With(self, st):
+        vals = []
         for item in st.items:
             v = self.ev(item.context_expr)
+            vals.append(v)
             self.event("with_enter", (v,), st)
             if item.optional_vars is not None:
                 self.assign(item.optional_vars, v, st)
         self.exec_block(st.body)
-        self.event("with_exit", (), st)
+        self.event("with_exit", tuple(vals), st)
 
     st_AsyncWith = st_With
 
@@ -1397,11 +1411,15 @@ class _StmtMixin:
         if not hasattr(fr, "try_stack"):
             fr.try_stack = []
         fr.try_stack.append([])
+        if not hasattr(fr, "try_excs"):
+            fr.try_excs = []
+        fr.try_excs.append(exc)
         self.guard.append(not_(exc))
         self.event("try_enter", (exc,), st)
         self.exec_block(st.body)
         self.guard.pop()
         explicit = fr.try_stack.pop()
+        fr.try_excs.pop()
         # explicit raises inside the body were marked dead; they are alive again in handlers
         for d in explicit:
             if d in fr.rdead:
@@ -1714,6 +1732,12 @@ class _LoopMixin:
         self.writelog = outer_log
         if outer_log is not None:
             outer_log.update(writes)
+        if kind == "while" and not may_exit_early:
+            # the loop was left because its condition became false
+            c_post = self.truth(self.ev(st.test))
+            if not isinstance(c_post, Const):
+                fr.rdead.append(c_post)
+            L.exit_cond = c_post
         self.event("loop_summarised", (L,), st)
         if getattr(st, "orelse", None):
             self.exec_block(st.orelse)
